@@ -42,7 +42,7 @@ def plan(tier):
 
 
 KINDS = ["random", "random", "magic", "hdr-garbage", "hdr-empty", "hdr-empty", "crc-garbage", "crc-msgs", "hello", "hello", "hello-trunc", "hello-big",
-         "hello-badversion", "multi-hello", "hello-plus-app", "auth-255", "auth-frag", "auth-challenge", "auth-disconnect", "auth-garbage-msg"]
+         "hello-badversion", "multi-hello", "hello-plus-app", "auth-255", "auth-frag", "auth-challenge", "auth-disconnect", "auth-garbage-msg", "rehello", "rehello", "rehello"]
 SRC = ["pool", "pool", "pool", "spoof-honest", "blocked", "attacker-established"]
 
 attack = st.tuples(st.sampled_from(KINDS), st.sampled_from(SRC), st.integers(0, 2 ** 20), st.integers(0, 7), st.sampled_from([0, 1, 2, 3, 17, 255])).map(list)
@@ -55,6 +55,7 @@ cases = st.fixed_dictionaries({
     "blocked": st.lists(st.sampled_from(["10.66.0.1", "10.66.0.2", "10.0.5.9", "10.77.0.1"]), max_size=3, unique=True),
     "blocked_client": st.booleans(),
     "ticks": st.lists(st.lists(attack, min_size=0, max_size=6), min_size=5, max_size=40),
+    "block_late": st.one_of(st.none(), st.integers(0, 30)),    # tick at which the second honest client's IP is put on the block list
 })
 
 
@@ -120,6 +121,12 @@ class Attacker(object):
         if kind == "hdr-garbage":
             body = ent.bytes(a % 400)
             return W.HDR.pack(W.MAGIC_TO_SERVER, t, 1 + a % 65535, 0, b, len(body) & 0xFFFF, cnt, 0) + body
+        if kind == "rehello":
+            # a bare / short CLIENT_HELLO typed header (no or little body), sent again and again by an address that has a
+            # handshake pending: every reply it earns counts against that address
+            body = [b"", ent.bytes(4), self.hello_msg(priv := self.key())[:40]][a % 3]
+            d = W.HDR.pack(W.MAGIC_TO_SERVER, t, 2 + a % 50, 0, W.T_CLIENT_HELLO, len(body) if a % 2 else 0, [1, 0, 1, cnt][a % 4], 0) + body
+            return crc_wrap(d) if a % 5 else d
         if kind == "hdr-empty":
             # a bare, well-formed header that announces an empty payload (optionally followed by a few trailer bytes)
             return W.HDR.pack(W.MAGIC_TO_SERVER, t, 1 + a % 65535, a % 7, b, 0, [0, 0, 1, cnt][a % 4], 0) + ent.bytes([0, 4, 16, 20][a % 4])
@@ -260,7 +267,27 @@ def body(ctx, c, bulk=0):
         if bulk:
             # thousands of well-formed hellos from distinct addresses, mixed with a few other kinds
             ticks = [[["hello", "pool", i * 7 + j, 0, 1] if (i + j) % 5 else ["crc-msgs", "pool", i * 7 + j, (i + j) % 8, 3] for j in range(12)] for i in range(bulk // 12)]
+        late_blocked = None
         for ti, tick in enumerate(ticks):
+            if c.get("block_late") is not None and ti == c["block_late"] and len(honest) > 1 and late_blocked is None:
+                # an operator blocks the IP of a client that is already connected: from now on nothing from that IP may be
+                # queued, processed or handed to the handler (the server's own keep-alives until the timeout are not replies)
+                late_blocked = honest.pop()
+                blocked_late_ip = late_blocked.laddr[0]
+                w.ctxt.setBlockList(set(w.ctxt.blocklist) | {blocked_late_ip})
+                t_block = w.clock.t
+                late_seen = len(w.events)
+                for pl in [pl for pl, (h, t, s_) in probes.items() if h is late_blocked]:
+                    probes.pop(pl)
+                flags.add("ip-blocked-while-connected")
+            if late_blocked is not None:
+                late_blocked.send(b"ECHO" + struct.pack(">IH", 900000 + ti, 9) + b"after-block", retry=0, callback=False)
+                for e in w.events[late_seen:]:
+                    if e["ev"] == "message" and e.get("addr") == late_blocked.laddr and e["t"] > t_block + 0.05:
+                        ctx.violation("blocked-datagram-processed", "a message from %s reached the handler %.3f s after its IP was block-listed" % (late_blocked.laddr, e["t"] - t_block))
+                late_seen = len(w.events)
+                if any(q[0][0] == blocked_late_ip for q in w.thread.queue):
+                    ctx.violation("blocked-datagram-queued", "datagram from late-blocked %s in the loop's queue" % (late_blocked.laddr,))
             for kind, src, a, b, cnt in tick:
                 if src == "attacker-established" or kind.startswith("auth-"):
                     if atk.established is None:
@@ -282,6 +309,9 @@ def body(ctx, c, bulk=0):
                     elif src == "blocked" and blocked_addrs:
                         addr = blocked_addrs[a % len(blocked_addrs)]
                         state = "blocked"
+                    elif kind == "rehello" and w.ctxt.temp_connections:
+                        addr = sorted(w.ctxt.temp_connections)[a % len(w.ctxt.temp_connections)]
+                        state = "temp"
                     else:
                         addr = pool[(a if not bulk else ti * 12 + a) % len(pool)]
                         state = "temp" if addr in w.ctxt.temp_connections else "new"
